@@ -220,6 +220,12 @@ namespace chaiscript {
 
       assert(size >= 0);
 
+      if (size > std::streampos(0) && infile.peek() == std::ifstream::traits_type::eof()) {
+        // it can be opened and reports a size, but not a single byte can be read from it
+        // (a directory, for instance): there is no file of that name here
+        throw chaiscript::exception::file_not_found_error(t_filename);
+      }
+
       if (skip_bom(infile)) {
         size -= 3; // decrement the BOM size from file size, otherwise we'll get parsing errors
         assert(size >= 0); // and check if there's more text
